@@ -141,6 +141,18 @@ func (o *Obligation) solve(timeoutS int) *SolveResult {
 	if r.Status == "unsat" || r.Status == "sat" {
 		return r
 	}
+	if o.Cover && strings.Contains(text, "(forall ") {
+		// Reachability guard with quantified facts in the path condition: solvers rarely answer "sat" under
+		// quantifiers. Ask again with every universal fact replaced by its instances at 0..15. A "sat" here shows the
+		// quantifier-free part of the path condition and those instances are consistent (what the guard is for:
+		// contradictory preconditions and invariants); other answers fall through to the full query.
+		rr := runSolver(context.Background(), solvers[0], relaxQuantifiersOpt(text, 16, true), 10)
+		if rr.Status == "sat" {
+			rr.Backend += " (universal facts instantiated at 0..15)"
+			rr.Ms += r.Ms
+			return rr
+		}
+	}
 	ctx, cancel := context.WithCancel(context.Background())
 	defer cancel()
 	ch := make(chan *SolveResult, len(solvers))
